@@ -29,6 +29,7 @@ var impls = map[string]func(string) string{
 	"http.chunk":     implHTTP,
 	"http.index":     implHTTP,
 	"sparse.ops":     implSparseOps,
+	"sparse.accept":  implSparseAccept,
 	"verify.index":   implVerifyIndex,
 	"arch.untar":     implUntar,
 	"arch.tar":       implTar,
